@@ -1,5 +1,6 @@
 import Driver.Json
 import RxModel.Codec
+import RxModel.Json
 open Lean Drv Rx
 
 namespace Drv
@@ -28,6 +29,13 @@ def cmdDecode (j : Json) : Except String Json := do
   let cs ← (← getArr (← field j "chunks")).mapM natList
   match decodeRun e (decInit e) cs with
   | .ok out => pure <| jobj [("out", jarr (out.map fun s => jstr (ofCps s)))]
+  | .error x => pure <| jobj [("exc", jstr x)]
+
+/-- {"cmd":"json_read","chunks":[[byte…]…]} → {"lines":[str…]} | {"exc":name} -/
+def cmdJsonRead (j : Json) : Except String Json := do
+  let cs ← (← getArr (← field j "chunks")).mapM natList
+  match jsonReadLines cs with
+  | .ok ls => pure <| jobj [("lines", jarr (ls.map fun l => jstr (ofCps l)))]
   | .error x => pure <| jobj [("exc", jstr x)]
 
 end Drv
